@@ -6,7 +6,7 @@ from checks.c01 import gen_scripts, oracle_pass
 def run(tier, seed, replay=None):
     chk = Check('C03', tier, seed)
     chk.assumptions += [
-        'model TA_Model.v (see C01); the capacity theorem holds without any guard for histories without reinstatement (the allocation refuses a slice the pools below cannot spare: repair of K2), and for reinstated grants passing the guard desc_safeb, which supply.Reserve does not check: that statement is refuted in Coq (C03_capacity_refuted)',
+        'model TA_Model.v (see C01); the capacity theorem holds for every history without any guard: allocation and reinstatement themselves refuse to take CPUs the pools below need (repairs of K2), and the model carries the same tests (spare_okb / spare_allb)',
         'eligibility table cpu_prefs = cpuAllocationPreferences: compared on every (inputs, output) pair observed; inputs are the results of the policy\'s own annotation helpers (their parsing is C18/C14 territory)',
         'cpu.shares: told_shares compared with the cache value of every granted pinned container after every event',
     ]
@@ -27,7 +27,7 @@ def run(tier, seed, replay=None):
         overs = [r['seq'] for r, (cfg, _) in zip(recs, cfgs)
                  if any(f['prop'] == 'C03' and f['clause'] == 'shared-capacity' for f in fsoracle.ta_state_findings(r, cfg, sc['_machine']))]
         if overs and not guard_fail.get(sc['name']):
-            chk.corr_broken('C03_capacity_partial:' + sc['name'],
+            chk.corr_broken('C03_capacity:' + sc['name'],
                             'history %s: a pool is oversubscribed after event %d although every operation passed the guard of the capacity theorem' % (sc['name'], overs[0]))
     nt = sum(1 for r in traces.values() if nontrivial_history(r))
     events = sum(len(r) for r in traces.values())
